@@ -6,6 +6,7 @@ const NIGHTLY: bool = false;
 
 fn main() {
     println!("cargo:rustc-check-cfg=cfg(nightly)");
+    println!("cargo:rustc-check-cfg=cfg(may_verif)");
     if NIGHTLY {
         println!("cargo:rustc-cfg=nightly");
     }
